@@ -71,7 +71,7 @@ def _oval(v, table, extra, depth=0):
     if isinstance(v, dict) and "__fun__" in v:
         return [5]
     if isinstance(v, dict) and "__scale__" in v:
-        return [7, 1 if v["__scale__"] == "linear" else 0]
+        return [7, 1 if v["__scale__"] == "linear" else 0, CALLER_SCALE_ID]
     if isinstance(v, dict) and depth == 0:
         out = [6, len(v)]
         for k, x in v.items():
@@ -90,8 +90,14 @@ def _user(spec):
     return out
 
 
+# identities of scale objects in the model: 0 = labella.timeline.DEFAULT_OPTIONS["scale"],
+# 1 = the object the caller passes, 2 = the TimeScale the constructor under test creates
+CALLER_SCALE_ID = 1
+FRESH_SCALE_ID = 2
+
+
 def model_calls(py):
-    u = _user(py["opts"])
+    u = [FRESH_SCALE_ID] + _user(py["opts"])
     return [[720] + u, [721] + u]
 
 
@@ -143,7 +149,9 @@ class _R:
         if t == 5:
             return "FUN"
         if t == 7:
-            return "SCALE:linear" if self.z() else "SCALE:time"
+            lin = self.z()
+            self.z()                  # object identity: compared through the resolved record
+            return "SCALE:linear" if lin else "SCALE:time"
         n = self.z()
         d = {}
         for _ in range(n):
@@ -172,6 +180,7 @@ def dec_resolved(m):
     out["lineSpacing"] = r.optq()
     out["linear"] = bool(r.z())
     out["own_scale"] = bool(r.z())
+    out["scale_id"] = r.z()
     return out
 
 
@@ -261,6 +270,8 @@ def impl(py):
         r["direction"] = tl.direction
         r["caller_dict_unchanged"] = _snapshot(opts) == before
         r["own_scale"] = (opts is None) or not any(tl.options["scale"] is o for o in objs)
+        r["scale_id"] = (0 if tl.options["scale"] is TL.DEFAULT_OPTIONS["scale"] else
+                         CALLER_SCALE_ID if any(tl.options["scale"] is o for o in objs) else FRESH_SCALE_ID)
         r["shares_default_scale"] = tl.options["scale"] is TL.DEFAULT_OPTIONS["scale"]
         r["shares_default_labella"] = tl.options["labella"] is TL.DEFAULT_OPTIONS["labella"]
         r["shares_caller_labella"] = isinstance(opts, dict) and tl.options["labella"] is opts.get("labella")
@@ -348,7 +359,7 @@ def _wellformed(rng):
 def _malformed(rng):
     o = _wellformed(rng) or {}
     kind = rng.choice(["partial_margin", "partial_padding", "latex_not_dict", "labella_not_dict", "bad_direction",
-                       "bad_algorithm", "empty_colour_list", "margin_not_dict"])
+                       "bad_algorithm", "empty_colour_list", "margin_not_dict", "bad_colour", "bad_border_unused"])
     if kind == "partial_margin":
         o["margin"] = {s: 10 for s in rng.sample(SIDES, rng.randrange(0, 4))}
     elif kind == "partial_padding":
@@ -370,6 +381,12 @@ def _malformed(rng):
         o["labella"]["minPos"] = 0
         o["labella"]["maxPos"] = 50
         o["labella"].pop("density", None)
+    elif kind == "bad_colour":
+        o[rng.choice(COLOURS[:4])] = rng.choice(["zzz", "", "#12", "#12345g", ["#111", "nope"]])
+    elif kind == "bad_border_unused":
+        # an invalid border colour is never read while showBorder is off: the export succeeds
+        o["borderColor"] = rng.choice(["zzz", "#12"])
+        o["showBorder"] = rng.choice([False, 0])
     elif kind == "empty_colour_list":
         o[rng.choice(COLOURS[:4])] = []
     else:
@@ -418,6 +435,8 @@ def oracle(case, io):
             return "labella.timeline.DEFAULT_OPTIONS was modified"
         if r.get("shares_default_scale") or r.get("shares_default_labella"):
             return "the timeline shares a mutable default (scale or labella dict) with the module"
+        if r.get("shares_caller_labella"):
+            return "the timeline keeps the caller's labella dict itself (it writes the direction into it)"
     return None
 
 
@@ -484,6 +503,10 @@ def compare(case, io, mo):
                     return "%s: self.options[%r] = %r, model %r" % (kind, k, got[k], want[k])
         # ---- resolved values / errors
         if res[0] == 0:
+            if "exc" not in r and kind == "tex" and case.get("kind", "").endswith("bad_colour"):
+                # an invalid colour code: hex2rgbstr (SVG) raises, hex2html (TikZ) passes it through
+                # unvalidated; the model's as_colour is the SVG reading
+                continue
             if "exc" not in r:
                 return "%s: the model raises (%s), the implementation constructs and exports" % (kind, "KeyError" if res[1] == 0 else "TypeError")
             if res[1] == 0 and r["exc"] != "KeyError":
@@ -507,6 +530,8 @@ def compare(case, io, mo):
             if _truthy_canon(v) != m[k]:
                 return "%s: truth value of %s = %r, model %r" % (kind, k, v, m[k])
         for k in COLOURS:
+            if k == "borderColor" and not m["showBorder"]:
+                continue          # not read while showBorder is off (the model keeps a placeholder)
             if not (o[k] == m[k] or (isinstance(m[k], list) and o[k] == m[k])):
                 return "%s: %s = %r, model %r" % (kind, k, o[k], m[k])
         if "engine" not in r:
@@ -522,6 +547,9 @@ def compare(case, io, mo):
                 return "%s: engine %s %r, model %s" % (kind, k, e[k], m[k])
         if (o["scale"] == "SCALE:linear") != m["linear"]:
             return "%s: scale object %r, model linear=%r" % (kind, o["scale"], m["linear"])
+        if r["scale_id"] != m["scale_id"]:
+            return "%s: the timeline points to scale object %d (0 module default, 1 the caller's, 2 its own), model %d" % (
+                kind, r["scale_id"], m["scale_id"])
         if r["own_scale"] != m["own_scale"]:
             return "%s: the timeline %s its own scale object, model says %r" % (
                 kind, "made" if r["own_scale"] else "did not make", m["own_scale"])
